@@ -112,6 +112,7 @@ func genTables(c *Ctx, verifDir string) error {
 var verifDirGlobal string
 
 func runC10(c *Ctx, r *Run) {
+	checkBitMasks(c, r, "BIT-2")
 	r.Rule("COVER-2", "constant-bound loops over fixed-size proof arrays (statistical repetitions) walk every element")
 	r.Rule("PARAM-1", "security and interval parameters have their reviewed values")
 	r.Rule("FS-1", "transcript completeness: every field of each struct parameter of challenge() and every other non-context parameter is absorbed by hash.WriteAny (arrays element-wise over the whole array)")
